@@ -1575,6 +1575,78 @@ def unfold_mapping_comprehensions(fn, ref_fn) -> List[str]:
     return done
 
 
+def unfold_flattening_generators(fn, ref_fn) -> List[str]:
+    """Undo "nested loops -> one loop over a flattening generator":
+
+        G = (e for a in A for b in a.B ...)       (G new relative to the
+        for x in G: body                           reference, used once)
+
+    becomes the nested loops `for a in A: for b in a.B: ...: x = e; body`
+    (no assignment when e is the innermost loop variable and has x's name).
+    A generator expression is lazy, so the interleaving of iteration and
+    body is the same as in the nested loops."""
+    ref_names = _all_names(ref_fn)
+    done: List[str] = []
+
+    def block(stmts):
+        out = []
+        i = 0
+        while i < len(stmts):
+            st = stmts[i]
+            for field in ('body', 'orelse', 'finalbody'):
+                sub = getattr(st, field, None)
+                if isinstance(sub, list) and sub and \
+                        isinstance(sub[0], ast.stmt) and not isinstance(
+                            st, (ast.FunctionDef, ast.ClassDef,
+                                 ast.AsyncFunctionDef)):
+                    setattr(st, field, block(sub))
+            for h in getattr(st, 'handlers', []) or []:
+                h.body = block(h.body)
+            nxt = stmts[i + 1] if i + 1 < len(stmts) else None
+            if isinstance(st, ast.Assign) and len(st.targets) == 1 and \
+                    isinstance(st.targets[0], ast.Name) and \
+                    isinstance(st.value, ast.GeneratorExp) and \
+                    len(st.value.generators) >= 2 and \
+                    not any(g.is_async for g in st.value.generators) and \
+                    isinstance(nxt, ast.For) and \
+                    isinstance(nxt.iter, ast.Name) and \
+                    nxt.iter.id == st.targets[0].id and not nxt.orelse and \
+                    st.targets[0].id not in ref_names:
+                name = st.targets[0].id
+                loads = [n for n in ast.walk(fn) if isinstance(n, ast.Name)
+                         and n.id == name and isinstance(n.ctx, ast.Load)]
+                if len(loads) == 1:
+                    gen = st.value
+                    body = list(nxt.body)
+                    same = isinstance(gen.elt, ast.Name) and \
+                        isinstance(nxt.target, ast.Name) and \
+                        gen.elt.id == nxt.target.id
+                    if not same:
+                        body = [ast.Assign(targets=[nxt.target],
+                                           value=gen.elt)] + body
+                    for g in reversed(gen.generators):
+                        for c in reversed(g.ifs):
+                            body = [ast.If(test=c, body=body, orelse=[])]
+                        tgt = copy.deepcopy(g.target)
+                        for n in ast.walk(tgt):
+                            if isinstance(n, ast.Name):
+                                n.ctx = ast.Store()
+                        body = [ast.For(target=tgt, iter=g.iter, body=body,
+                                        orelse=[])]
+                    loop = body[0]
+                    ast.copy_location(loop, nxt)
+                    ast.fix_missing_locations(loop)
+                    out.append(loop)
+                    done.append(name)
+                    i += 2
+                    continue
+            out.append(st)
+            i += 1
+        return out
+    fn.body = block(fn.body)
+    return done
+
+
 def forward_new_temps(fn, ref_fn) -> List[str]:
     """Undo "introduce variable": a local that does not exist in the
     reference function, is bound exactly once by `x = <expr>` and is read
